@@ -151,6 +151,13 @@ Definition c10_response (focus : N) (q : vmon) (t : Z) (m : message) (multicast 
                                    | _, _ => false
                                    end in
                 if unwithdrawn && in_focus focus 42 then inr 42%N else
+                (* 44: a service multicast names some of PTR / SRV / TXT with TTL 0 and others with a live TTL: neither a goodbye
+                   nor an announcement - the listener is left holding part of the service *)
+                let mixed := match m_records m with
+                             | [p; s; x] => negb (Bool.eqb (r_ttl p =? 0)%N (r_ttl s =? 0)%N && Bool.eqb (r_ttl p =? 0)%N (r_ttl x =? 0)%N)
+                             | _ => false
+                             end in
+                if mixed && in_focus focus 44 then inr 44%N else
                 let served := match m_records m with
                               | [p; s; x] => if (r_ttl p =? 0)%N then None
                                              else Some (set_target (r_name p) (set_type 12 (set_name (Some BROWSE) default_record)), p, s, x)
